@@ -12,6 +12,9 @@ patch = os.path.abspath(args[0]); props = args[1:]
 wt = '/tmp/seedrepo-%d' % os.getpid()
 subprocess.run(['git', '-C', '/repo', 'worktree', 'add', '--detach', '-q', wt], check=True)
 try:
+    # files that exist in /repo's working tree but are not tracked (generated config header)
+    for f in ('SRC/superlu_config.h',):
+        if os.path.exists('/repo/' + f) and not os.path.exists(os.path.join(wt, f)): shutil.copy('/repo/' + f, os.path.join(wt, f))
     r = subprocess.run(['git', '-C', wt, 'apply', patch], capture_output=True, text=True)
     if r.returncode: print('PATCH DOES NOT APPLY:', r.stderr); sys.exit(2)
     env = dict(os.environ, VERIF_REPO=wt, VERIF_SEED=seed)
